@@ -281,6 +281,31 @@ def _strtoint_replay(tok):
     return True if v == float(tok) else "strToIntOrFloat(%r) = %r" % (tok, v)
 
 
+TOKENS = ["0", "7", "123456", "0.5", "7.25", "123456.789", "1e-05", "5e-05", "2e-08", "1e-17", "1.5e-05", "1e+16", "1e+100", "1.7976931348623157e+308", "5e-324", "3E5", "2.5E-3", "1E+2", "0.30000000000000004", "2.9999999999999996", "1000000000000000", "00012", "12.", ".5"]
+
+
+def ob_strtoint_concrete():
+    """concrete companion (not a solver verdict; it does not depend on the shape of the code):
+    number tokens of every written shape denote the same value after strToIntOrFloat"""
+
+    def check(i):
+        tok = TOKENS[i]
+        try:
+            v = utils.strToIntOrFloat(tok)
+        except Exception as e:  # noqa
+            return "strToIntOrFloat(%r) raised %s" % (tok, type(e).__name__)
+        return True if v == float(tok) else "strToIntOrFloat(%r) = %r" % (tok, v)
+
+    def run():
+        for i in range(len(TOKENS)):
+            r = check(i)
+            if r is not True:
+                return {"verdict": "REFUTED", "queries": i + 1, "cex_args": {"i": i}, "message": str(r), "refute_kind": "CONCRETE"}
+        return {"verdict": "CONFIRMED", "queries": len(TOKENS), "detail": "concrete cross-check"}
+
+    return Ob("num-strToIntOrFloat-concrete", I("i"), check, kind="smt", smt=run, timeout=60, funcs=FN[2:3], bounds="concrete cross-check: %d tokens (integers, decimals, exponent notation with and without '.', upper-case E)" % len(TOKENS))
+
+
 def ob_strtoint(lang):
     return Ob("num-strToIntOrFloat-%s" % lang, S("tok"), _strtoint_replay, kind="smt", smt=_strtoint_smt(lang), timeout=300, funcs=FN[2:3], bounds="%s, length <= 10" % LANGS[lang])
 
